@@ -154,6 +154,16 @@ func (a *Analyzer) CheckRule(clause ast.Clause) error {
 						boundVars[p.Interval.End.Variable] = true
 					}
 				}
+			case ast.Ineq:
+				// Evaluation proceeds left-to-right: both sides must have a value by now.
+				vars := make(map[ast.Variable]bool)
+				ast.AddVars(p.Left, vars)
+				ast.AddVars(p.Right, vars)
+				for v := range vars {
+					if !boundVars[v] {
+						return fmt.Errorf("variable %v in %v will not have a value yet; move the subgoal to the right", v, p)
+					}
+				}
 			case ast.Eq:
 				if _, isconst := p.Left.(ast.Constant); isconst {
 					if v, isvar := p.Right.(ast.Variable); isvar {
